@@ -575,4 +575,75 @@ def segReads (hf : HashFn α H) (s : Segment α H) (size : Nat) (bm : Option (Na
   | .ok (stk, _) => if s.id.full size then [] else peakReads s bm stk (peaksIn s.id size)
   | _ => []
 
+theorem root_inj (hf : HashFn α H) (inj : Inj hf) (s1 s2 : Segment α H) (hid : s1.id = s2.id)
+    (size : Nat) (bm : Option (Nat → Bool)) (wf : WellFormedRange s1.id size) (o1 o2 : Option H)
+    (h1 : s1.root hf size bm = .ok o1) (h2 : s2.root hf size bm = .ok o2) :
+    o1.isSome = o2.isSome ∧ (o1 = o2 → segReads hf s1 size bm = segReads hf s2 size bm) := by
+  unfold Segment.root at h1 h2
+  unfold segReads
+  simp only at h1 h2 ⊢
+  rw [← hid] at h2 ⊢
+  cases hl1 : rootLoop hf s1 bm size ([], s1.leafPos.zip s1.leafData) (s1.id.positions size) with
+  | err e => simp [hl1] at h1
+  | panic => simp [hl1] at h1
+  | ok f1 =>
+    cases hl2 : rootLoop hf s2 bm size ([], s2.leafPos.zip s2.leafData) (s1.id.positions size) with
+    | err e => simp [hl2] at h2
+    | panic => simp [hl2] at h2
+    | ok f2 =>
+      obtain ⟨stk1, it1⟩ := f1
+      obtain ⟨stk2, it2⟩ := f2
+      simp only [hl1, hl2] at h1 h2 ⊢
+      obtain ⟨hsh, hback⟩ := rootLoop_inj hf inj s1 s2 bm size _ _ _ _ _ hl1 hl2 rfl
+      have d1 := rootLoop_depth hf s1 bm size _ _ _ hl1
+      have d2 := rootLoop_depth hf s2 bm size _ _ _ hl2
+      simp only [List.length_nil] at d1 d2
+      unfold WellFormedRange at wf
+      rw [wf] at d1 d2
+      simp only [Option.some.injEq] at d1 d2
+      by_cases hfull : s1.id.full size = true
+      · simp only [hfull, if_true] at h1 h2 d1 d2 ⊢
+        match stk1, stk2, d1, d2 with
+        | [v1], [v2], _, _ =>
+          simp only [Res.ok.injEq] at h1 h2
+          subst h1; subst h2
+          refine ⟨by simpa [shape] using hsh, ?_⟩
+          intro he
+          subst he
+          have := (hback rfl).2
+          simp only [this]
+      · simp only [hfull] at h1 h2 d1 d2 ⊢
+        simp only [Bool.false_eq_true, if_false] at h1 h2 d1 d2 ⊢
+        have hpk : peaksIn s1.id size = ((peaks size).filter fun p =>
+            (s1.id.posRange size).1 ≤ p && p ≤ (s1.id.posRange size).2).reverse := rfl
+        rw [← hpk] at h1 h2
+        cases hb1 : bagPeaks hf s1 bm size stk1 none (peaksIn s1.id size) with
+        | err e => simp [hb1] at h1
+        | panic => simp [hb1] at h1
+        | ok w1 =>
+          cases hb2 : bagPeaks hf s2 bm size stk2 none (peaksIn s1.id size) with
+          | err e => simp [hb2] at h2
+          | panic => simp [hb2] at h2
+          | ok w2 =>
+            simp only [hb1, hb2] at h1 h2
+            obtain ⟨hv, hbk⟩ := bagPeaks_inj hf inj s1 s2 bm size _ _ _ _ _ _ _ hb1 hb2 hsh rfl
+            cases w1 with
+            | none => simp at h1
+            | some x1 =>
+              cases w2 with
+              | none => simp at h2
+              | some x2 =>
+                simp only [Res.ok.injEq] at h1 h2
+                subst h1; subst h2
+                refine ⟨rfl, ?_⟩
+                intro he
+                obtain ⟨_, htake, hpr⟩ := hbk he
+                have t1 : List.take (peaksIn s1.id size).length stk1 = stk1 := by
+                  rw [d1]; exact List.take_length
+                have t2 : List.take (peaksIn s1.id size).length stk2 = stk2 := by
+                  rw [d2]; exact List.take_length
+                rw [t1, t2] at htake
+                have := (hback htake).2
+                simp only [this, hpr]
+
 end GV.Seg
